@@ -180,8 +180,10 @@ def run_property(prop, tier='quick', replay=None):
     expected = prop.expected_obligations()
     missing = []
     if expected is not None:
-        have = {o.meta.get('base', o.name) for o in obs}
-        missing = [e for e in expected if e not in have]
+        import re as _re
+        norm = lambda n: _re.sub(r'@L\d+', '', n)           # line numbers in site names are not part of the anchor
+        have = {norm(o.meta.get('base', o.name)) for o in obs}
+        missing = sorted({e for e in expected if norm(e) not in have})
         for m in missing:
             undecided.append(dict(obligation=m, reason='expected obligation was not generated (anchor drift)'))
     n_ref = 0
